@@ -58,6 +58,7 @@ func main() {
 	src := flag.String("src", "/repo", "module root to instrument")
 	dst := flag.String("dst", "", "output directory")
 	statsOut := flag.String("stats", "", "write instrumentation statistics (JSON) here")
+	flag.BoolVar(&noAccess, "noaccess", false, "leave rule R9 (map-field access notes for the lockset checker) out")
 	flag.Parse()
 	if *dst == "" {
 		fail("-dst required")
@@ -267,7 +268,12 @@ func (rw *rewriter) mapField(e ast.Expr) *ast.SelectorExpr {
 // where they are instrumented), a call `simrt.Access(&x.f, site, write)` to put
 // in front of the statement. Not a scheduling point: it feeds the lockset
 // checker (simrt.Config.Lockset).
+var noAccess bool
+
 func (rw *rewriter) accesses(s ast.Stmt) []ast.Stmt {
+	if noAccess {
+		return nil
+	}
 	var nodes []ast.Node
 	switch x := s.(type) {
 	case *ast.ExprStmt, *ast.SendStmt, *ast.IncDecStmt, *ast.AssignStmt, *ast.DeclStmt, *ast.ReturnStmt:
@@ -294,6 +300,50 @@ func (rw *rewriter) accesses(s ast.Stmt) []ast.Stmt {
 		return rw.accesses(x.Stmt)
 	default:
 		return nil
+	}
+	// variables the statement's own init clause declares are not in scope in
+	// front of the statement: accesses through them are not hoisted
+	local := map[types.Object]bool{}
+	noteDefs := func(init ast.Stmt) {
+		if init == nil {
+			return
+		}
+		ast.Inspect(init, func(n ast.Node) bool {
+			if id, ok := n.(*ast.Ident); ok {
+				if obj := rw.info.Defs[id]; obj != nil {
+					local[obj] = true
+				}
+			}
+			return true
+		})
+	}
+	switch x := s.(type) {
+	case *ast.IfStmt:
+		for cur := x; cur != nil; {
+			noteDefs(cur.Init)
+			next, _ := cur.Else.(*ast.IfStmt)
+			cur = next
+		}
+	case *ast.ForStmt:
+		noteDefs(x.Init)
+	case *ast.SwitchStmt:
+		noteDefs(x.Init)
+	case *ast.TypeSwitchStmt:
+		noteDefs(x.Init)
+		noteDefs(x.Assign)
+	}
+	usesLocal := func(f *ast.SelectorExpr) bool {
+		if os.Getenv("INSTRUMENT_R9_NO_SCOPE_CHECK") != "" {
+			return false // (self-test of the driver's fallback only: provokes a copy that does not compile)
+		}
+		found := false
+		ast.Inspect(f, func(n ast.Node) bool {
+			if id, ok := n.(*ast.Ident); ok && local[rw.info.Uses[id]] {
+				found = true
+			}
+			return true
+		})
+		return found
 	}
 	writes := map[*ast.SelectorExpr]bool{}
 	markLHS := func(e ast.Expr) {
@@ -343,6 +393,9 @@ func (rw *rewriter) accesses(s ast.Stmt) []ast.Stmt {
 			}
 			if e, ok := n.(ast.Expr); ok {
 				if f := rw.mapField(e); f != nil && ast.Unparen(e) == ast.Expr(f) {
+					if usesLocal(f) {
+						return false
+					}
 					key := fmt.Sprintf("%s/%v", types.ExprString(f), writes[f])
 					if !seen[key] {
 						seen[key] = true
